@@ -78,6 +78,9 @@ func harnessFiles(prop string, native bool) map[string]string {
 		rt = "rt_native.go.txt"
 	}
 	m[filepath.Join(repoDir, "zz_verif_rt.go")] = filepath.Join(hd, rt)
+	if native {
+		m[filepath.Join(repoDir, "zz_verif_rt_json.go")] = filepath.Join(hd, "rt_native_json.go.txt")
+	}
 	ents, _ := os.ReadDir(hd)
 	lp := strings.ToLower(prop)
 	for _, e := range ents {
@@ -243,6 +246,7 @@ func check(prop string, args []string) int {
 	maxPaths := fs.Int64("max-paths", 0, "path budget per harness (0 = tier default)")
 	noNative := fs.Bool("no-native", false, "skip native concordance/replay (debugging only; violations are then not reported)")
 	cpuprof := fs.String("cpuprofile", "", "write CPU profile")
+	solverKind := fs.String("solver", solverFor(prop), "incremental back end: z3 | cvc5 | z3-new")
 	fs.Parse(args)
 	if *cpuprof != "" {
 		f, _ := os.Create(*cpuprof)
@@ -267,7 +271,7 @@ func check(prop string, args []string) int {
 		what[f.ID] = f.What
 	}
 
-	pool := solver.Prestart("z3", *workers, 3000)
+	pool := solver.Prestart(*solverKind, *workers, 3000)
 	defer func() {
 		for {
 			select {
@@ -312,7 +316,7 @@ func check(prop string, args []string) int {
 	if p.Sizes == nil {
 		p.Sizes = types.SizesFor("gc", "amd64")
 	}
-	cfg := vexec.RunConfig{Pool: pool, Workers: *workers, Verbose: *verbose, SolverMs: 3000, PortfolioS: 20, MaxPaths: 250000, Deadline: 8 * time.Minute}
+	cfg := vexec.RunConfig{SolverKind: *solverKind, Pool: pool, Workers: *workers, Verbose: *verbose, SolverMs: 3000, PortfolioS: 20, MaxPaths: 250000, Deadline: 8 * time.Minute}
 	if tierN == 1 {
 		cfg.SolverMs = 10000
 		cfg.PortfolioS = 120
@@ -611,6 +615,15 @@ func writeEvidence(prop, tier string, seed int, cov map[string]interface{}, assu
 	os.MkdirAll(filepath.Join(verifDir, "evidence"), 0o755)
 	b, _ := json.MarshalIndent(ev, "", " ")
 	os.WriteFile(filepath.Join(verifDir, "evidence", prop+".json"), b, 0o644)
+}
+
+// solverFor picks the incremental back end (z3 4.8.12 unless overridden; queries it leaves
+// unknown go to the cvc5 / z3 5.1 portfolio).
+func solverFor(prop string) string {
+	if v := os.Getenv("VSYM_SOLVER"); v != "" {
+		return v
+	}
+	return "z3"
 }
 
 func sumMap(m map[string]int) int {
